@@ -265,9 +265,50 @@ def patch_of(m):
     return "".join(difflib.unified_diff(old, new, f"a/{m['file']}", f"b/{m['file']}", n=3))
 
 
+def _classify(m, trees, analysed):
+    """coarse, automatic triage of a silent survivor (the rest is read by a person)"""
+    q = m["file"][:-3].replace("/", ".") + "." + m["function"]
+    if q not in analysed:
+        return "outside the functions any check analyses"
+    s, tree, par = trees[m["file"]]
+
+    def logs_only(body):
+        return all((isinstance(x, ast.Expr) and isinstance(x.value, ast.Call) and isinstance(x.value.func, ast.Attribute) and isinstance(x.value.func.value, ast.Name)
+                    and x.value.func.value.id in ("_LOGGER", "logging")) or isinstance(x, ast.Pass) for x in body)
+    for n in ast.walk(tree):
+        if isinstance(n, ast.If) and logs_only(n.body) and logs_only(n.orelse):
+            a, b = s.span(n.test)
+            if a <= m["start"] and m["end"] <= b + 4:
+                return "condition of a branch that only logs"
+        if isinstance(n, ast.Call):
+            fn_ = ast.unparse(n.func)
+            for arg in list(n.args) + [k.value for k in n.keywords if k.arg in ("timeout", "delay")]:
+                a, b = s.span(arg)
+                if a <= m["start"] and m["end"] <= b and (fn_.endswith("sleep") or fn_.endswith("wait_for") or any(k.arg == "timeout" and k.value is arg for k in n.keywords)):
+                    return "a delay / timeout value (no property quantifies over it)"
+        if isinstance(n, (ast.FunctionDef, ast.AsyncFunctionDef)):
+            for d in n.args.defaults + [x for x in n.args.kw_defaults if x is not None]:
+                a, b = s.span(d)
+                if a <= m["start"] and m["end"] <= b and any(p.arg in ("timeout", "retries") for p in n.args.args + n.args.kwonlyargs):
+                    return "a delay / timeout value (no property quantifies over it)"
+    if m["op"] == "retnone" and m["old"].strip() in ("return False", "return 0", "return []", "return {}"):
+        return "returns None for another falsy value"
+    return "to read"
+
+
 def report():
+    import glob
     ms = {m["id"]: m for m in json.load(open(f"{TMP}/mutants.json"))}
     rs = json.load(open(f"{TMP}/results.json"))
+    analysed = set()
+    for f in glob.glob(f"{VERIF}/evidence/C*.json"):
+        analysed |= set(json.load(open(f))["coverage"].get("analysed", {}).get("functions", []))
+    trees = {}
+    for rel in {m["file"] for m in ms.values()}:
+        s_ = Src(f"/repo/{rel}")
+        t_ = ast.parse(s_.data)
+        trees[rel] = (s_, t_, None)
+    klass = {}
     tot = {"killed": 0, "reported": 0, "refused": 0, "silent": 0}
     by_op, by_fn, silent = {}, {}, []
     for r in rs:
@@ -281,7 +322,11 @@ def report():
         by_fn[fq][k] += 1
         if k == "silent":
             silent.append(m)
+            c_ = _classify(m, trees, analysed)
+            klass[c_] = klass.get(c_, 0) + 1
+            m["class"] = c_
     print("total:", tot)
+    print("silent survivors by class:", klass)
     for op, v in sorted(by_op.items()):
         print(f"  {op:8}", v)
     with open(f"{TMP}/silent.md", "w") as fh:
@@ -292,7 +337,7 @@ def report():
                 if f"{m['file']}:{m['function']}" == fq:
                     line = open(f"/repo/{m['file']}", "rb").read()[:m["start"]].count(b"\n") + 1
                     src = open(f"/repo/{m['file']}", "rb").read().decode().splitlines()[line - 1].strip()
-                    fh.write(f"- {m['id']} L{line} [{m['op']}] {m['what']}   | `{src[:110]}`\n")
+                    fh.write(f"- {m['id']} L{line} [{m['op']}] ({m.get('class')}) {m['what']}   | `{src[:110]}`\n")
     print(f"silent survivors listed in {TMP}/silent.md")
 
 
